@@ -38,6 +38,18 @@ pub enum BrokerVerdict {
     LoseRequest,
     /// the broker executes the call, the coordinator sees a failed request
     LoseReply,
+    /// the coordinator sees a failed request; the call reaches the broker later (stale delivery)
+    Delay,
+    /// the call reaches the broker twice (a retried HTTP request); the coordinator sees the second answer
+    Duplicate,
+}
+
+/// A mutating broker call that was delayed on the network.
+#[derive(Clone, Debug)]
+pub enum DelayedCall {
+    Commit(String, MigrationTaskMeta),
+    Replace(String, String),
+    AddFailure(String, String, String),
 }
 
 /// Asynchronous gate for coordinator -> broker calls (who, what).  The future may do arbitrary
@@ -54,6 +66,10 @@ pub struct CommitRec {
     pub ok: bool,
     pub code: String,
     pub state_changed: bool,
+    /// the descriptor named a migration the broker held at that moment (same range list, epoch and
+    /// four addresses) - a commit that is accepted although this is false committed something else
+    pub was_current: bool,
+    pub late: bool,
 }
 
 /// Calls of the coordinator to the broker, optionally recorded / failed by the harness.
@@ -65,14 +81,15 @@ pub struct SimBroker {
     pub fail_at: Mutex<Option<usize>>,
     pub hook: Mutex<Option<BrokerHook>>,
     pub commits: Arc<Mutex<Vec<CommitRec>>>,
+    pub delayed: Arc<Mutex<Vec<DelayedCall>>>,
 }
 
 impl SimBroker {
     pub fn new(broker: Arc<Broker>) -> Arc<SimBroker> {
-        Arc::new(SimBroker { broker, who: "coordinator".into(), calls: Mutex::new(vec![]), fail_at: Mutex::new(None), hook: Mutex::new(None), commits: Arc::new(Mutex::new(vec![])) })
+        Arc::new(SimBroker { broker, who: "coordinator".into(), calls: Mutex::new(vec![]), fail_at: Mutex::new(None), hook: Mutex::new(None), commits: Arc::new(Mutex::new(vec![])), delayed: Arc::new(Mutex::new(vec![])) })
     }
     pub fn view(&self, who: &str) -> Arc<SimBroker> {
-        Arc::new(SimBroker { broker: self.broker.clone(), who: who.to_string(), calls: Mutex::new(vec![]), fail_at: Mutex::new(None), hook: Mutex::new(self.hook.lock().unwrap().clone()), commits: self.commits.clone() })
+        Arc::new(SimBroker { broker: self.broker.clone(), who: who.to_string(), calls: Mutex::new(vec![]), fail_at: Mutex::new(None), hook: Mutex::new(self.hook.lock().unwrap().clone()), commits: self.commits.clone(), delayed: self.delayed.clone() })
     }
     fn enter(&self, what: String) -> bool {
         self.calls.lock().unwrap().push(what);
@@ -89,6 +106,73 @@ impl SimBroker {
             None => true,
         }
     }
+    /// Does the broker (restored from `snap`, all migrations visible) hold exactly this task?
+    fn task_is_current(snap: &Value, meta: &MigrationTaskMeta) -> bool {
+        let cfg = BrokerCfg { ordered: false, migration_limit: 0, failure_quorum: 1, failure_ttl: 100000 };
+        let b = match Broker::from_snapshot(&cfg, 0, snap) {
+            Ok(b) => b,
+            Err(_) => return false,
+        };
+        let want = match meta.slot_range.tag.get_migration_meta() {
+            Some(m) => m.clone(),
+            None => return false,
+        };
+        let c = match b.cluster(meta.cluster_name.as_str()) {
+            Some(c) => c,
+            None => return false,
+        };
+        c.get_nodes().iter().any(|n| {
+            n.get_slots().iter().any(|s| s.get_range_list() == meta.slot_range.get_range_list() && s.tag.get_migration_meta().map(|m| *m == want).unwrap_or(false))
+        })
+    }
+
+    /// The broker side of one commit_migration call (also used for duplicated and late deliveries).
+    async fn commit_at_broker(&self, who: &str, meta: MigrationTaskMeta, late: bool) -> Result<(), undermoon::broker::MetaStoreError> {
+        let task = format!("{} {:?}", meta.slot_range.get_range_list(), meta.slot_range.tag.get_migration_meta().map(|m| (m.epoch, m.src_proxy_address.clone(), m.dst_proxy_address.clone())));
+        let (src_proxy, dst_proxy) = meta.slot_range.tag.get_migration_meta().map(|m| (m.src_proxy_address.clone(), m.dst_proxy_address.clone())).unwrap_or_default();
+        let before = self.broker.snapshot();
+        let was_current = Self::task_is_current(&before, &meta);
+        // the task descriptor is the JSON body of PUT /clusters/migrations in production
+        let meta: MigrationTaskMeta = match serde_json::to_string(&meta).ok().and_then(|s| serde_json::from_str(&s).ok()) {
+            Some(m) => m,
+            None => return Err(undermoon::broker::MetaStoreError::InvalidMigrationTask),
+        };
+        let r = self.broker.svc.commit_migration(meta).await;
+        let after = self.broker.snapshot();
+        self.commits.lock().unwrap().push(CommitRec {
+            who: who.to_string(),
+            task,
+            src_proxy,
+            dst_proxy,
+            ok: r.is_ok(),
+            code: r.as_ref().err().map(|e| e.to_code().to_string()).unwrap_or_default(),
+            state_changed: before != after,
+            was_current,
+            late,
+        });
+        r
+    }
+
+    /// Late delivery of the mutating calls that were delayed on the network (in call order).
+    pub async fn deliver_delayed(&self) -> usize {
+        let d: Vec<DelayedCall> = std::mem::take(&mut *self.delayed.lock().unwrap());
+        let n = d.len();
+        for c in d {
+            match c {
+                DelayedCall::Commit(who, meta) => {
+                    let _ = self.commit_at_broker(&format!("{}(late)", who), meta, true).await;
+                }
+                DelayedCall::Replace(_who, addr) => {
+                    let _ = self.broker.svc.replace_failed_proxy(addr).await;
+                }
+                DelayedCall::AddFailure(_who, addr, reporter) => {
+                    let _ = self.broker.svc.add_failure(addr, reporter).await;
+                }
+            }
+        }
+        n
+    }
+
     async fn gate(&self, what: String) -> BrokerVerdict {
         if !self.enter(what.clone()) {
             return BrokerVerdict::LoseRequest;
@@ -159,6 +243,13 @@ impl MetaDataBroker for SimBroker {
             if v == BrokerVerdict::LoseRequest {
                 return Err(MetaDataBrokerError::RequestFailed);
             }
+            if v == BrokerVerdict::Delay {
+                self.delayed.lock().unwrap().push(DelayedCall::AddFailure(self.who.clone(), address, reporter_id));
+                return Err(MetaDataBrokerError::RequestFailed);
+            }
+            if v == BrokerVerdict::Duplicate {
+                let _ = self.broker.svc.add_failure(address.clone(), reporter_id.clone()).await;
+            }
             let r = self.broker.svc.add_failure(address, reporter_id).await.map_err(|_| MetaDataBrokerError::RequestFailed);
             if v == BrokerVerdict::LoseReply {
                 return Err(MetaDataBrokerError::RequestFailed);
@@ -193,6 +284,13 @@ impl MetaManipulationBroker for SimBroker {
             if v == BrokerVerdict::LoseRequest {
                 return Err(MetaManipulationBrokerError::RequestFailed);
             }
+            if v == BrokerVerdict::Delay {
+                self.delayed.lock().unwrap().push(DelayedCall::Replace(self.who.clone(), failed_proxy_address));
+                return Err(MetaManipulationBrokerError::RequestFailed);
+            }
+            if v == BrokerVerdict::Duplicate {
+                let _ = self.broker.svc.replace_failed_proxy(failed_proxy_address.clone()).await;
+            }
             let r = self.broker.svc.replace_failed_proxy(failed_proxy_address).await.map_err(|_| MetaManipulationBrokerError::ResourceNotAvailable);
             if v == BrokerVerdict::LoseReply {
                 return Err(MetaManipulationBrokerError::RequestFailed);
@@ -202,29 +300,19 @@ impl MetaManipulationBroker for SimBroker {
     }
     fn commit_migration<'s>(&'s self, meta: MigrationTaskMeta) -> Pin<Box<dyn Future<Output = Result<(), MetaManipulationBrokerError>> + Send + 's>> {
         Box::pin(async move {
-            let task = format!("{} {:?}", meta.slot_range.get_range_list(), meta.slot_range.tag.get_migration_meta().map(|m| (m.epoch, m.src_proxy_address.clone(), m.dst_proxy_address.clone())));
-            let (src_proxy, dst_proxy) = meta.slot_range.tag.get_migration_meta().map(|m| (m.src_proxy_address.clone(), m.dst_proxy_address.clone())).unwrap_or_default();
             let v = self.gate(format!("commit_migration {}", meta.slot_range.get_range_list())).await;
-            if v == BrokerVerdict::LoseRequest {
-                return Err(MetaManipulationBrokerError::RequestFailed);
+            match v {
+                BrokerVerdict::LoseRequest => return Err(MetaManipulationBrokerError::RequestFailed),
+                BrokerVerdict::Delay => {
+                    self.delayed.lock().unwrap().push(DelayedCall::Commit(self.who.clone(), meta));
+                    return Err(MetaManipulationBrokerError::RequestFailed);
+                }
+                _ => {}
             }
-            let before = self.broker.snapshot();
-            // the task descriptor is the JSON body of PUT /clusters/migrations in production
-            let meta: MigrationTaskMeta = match serde_json::to_string(&meta).ok().and_then(|s| serde_json::from_str(&s).ok()) {
-                Some(m) => m,
-                None => return Err(MetaManipulationBrokerError::InvalidReply),
-            };
-            let r = self.broker.svc.commit_migration(meta).await;
-            let after = self.broker.snapshot();
-            self.commits.lock().unwrap().push(CommitRec {
-                who: self.who.clone(),
-                task,
-                src_proxy,
-                dst_proxy,
-                ok: r.is_ok(),
-                code: r.as_ref().err().map(|e| e.to_code().to_string()).unwrap_or_default(),
-                state_changed: before != after,
-            });
+            if v == BrokerVerdict::Duplicate {
+                let _ = self.commit_at_broker(&self.who, meta.clone(), false).await;
+            }
+            let r = self.commit_at_broker(&self.who, meta, false).await;
             if v == BrokerVerdict::LoseReply {
                 return Err(MetaManipulationBrokerError::RequestFailed);
             }
